@@ -96,6 +96,18 @@ func BadUnguarded(a, b *pcommon.Value) int {
 	return 0
 }
 
+// GoodSameType compares the types first, then switches on one of them.
+func GoodSameType(a, b *pcommon.Value) bool {
+	if a.Type() != b.Type() {
+		return false
+	}
+	switch a.Type() {
+	case pcommon.ValueTypeBytes:
+		return a.Bytes().Len() == b.Bytes().Len()
+	}
+	return true
+}
+
 // GoodGuarded reads under the test.
 func GoodGuarded(a *pcommon.Value) int {
 	switch a.Type() {
@@ -143,6 +155,51 @@ func typeGuarded(fn *ssa.Function, at ssa.Instruction, v ssa.Value, k int64, dep
 		}
 		if core.GuardedBy(iff, bo.Op == token.EQL, at) {
 			return true
+		}
+	}
+	// `if v.Type() != w.Type() { return … }` first: from there on a test of w's type is a test of v's
+	if depth <= 3 {
+		typeRecv := func(x ssa.Value) ssa.Value {
+			tc, ok := x.(*ssa.Call)
+			if !ok {
+				tc, ok = core.Canon(x).(*ssa.Call)
+			}
+			if !ok {
+				return nil
+			}
+			if tf := pdataCallee(tc); tf == nil || tf.Name() != "Type" || len(tc.Call.Args) != 1 {
+				return nil
+			}
+			return tc.Call.Args[0]
+		}
+		same := func(x ssa.Value) bool {
+			return x != nil && (x == v || core.SameValue(x, v) || core.StructEq(x, v, 0) || core.Canon(x) == core.Canon(v))
+		}
+		for _, b := range fn.Blocks {
+			iff := core.IfOf(b)
+			if iff == nil {
+				continue
+			}
+			bo, ok := iff.Cond.(*ssa.BinOp)
+			if !ok || (bo.Op != token.EQL && bo.Op != token.NEQ) {
+				continue
+			}
+			a, w := typeRecv(bo.X), typeRecv(bo.Y)
+			if a == nil || w == nil {
+				continue
+			}
+			var other ssa.Value
+			switch {
+			case same(a) && !same(w):
+				other = w
+			case same(w) && !same(a):
+				other = a
+			default:
+				continue
+			}
+			if core.GuardedBy(iff, bo.Op == token.EQL, at) && typeGuarded(fn, at, other, k, depth+4) {
+				return true
+			}
 		}
 	}
 	if fn.Parent() == nil || depth > 3 {
